@@ -262,7 +262,10 @@ let stdlib_oracle : stdlib = {
   pow_float = (fun a b ->
     (* exact cases only: small integer base and exponent with an exactly representable result *)
     let a = Float64.to_float a and b = Float64.to_float b in
-    if Float.is_integer a && Float.is_integer b && b >= 0.0 && b <= 64.0 && Float.abs a <= 1048576.0 then begin
+    if a = 0.0 && Float.is_integer b && b >= 0.0 && b <= 64.0 then
+      (* math.Pow(+-0, y): 1 for y = 0, +-0 for odd y, +0 for even y *)
+      Some (Float64.of_float (if b = 0.0 then 1.0 else if Float.rem b 2.0 <> 0.0 then a else 0.0))
+    else if Float.is_integer a && Float.is_integer b && b >= 0.0 && b <= 64.0 && Float.abs a <= 1048576.0 then begin
       let r = BigZ.pow (BigZ.of_float a) (int_of_float b) in
       if BigZ.lt (BigZ.abs r) (BigZ.of_string "9007199254740992") then Some (Float64.of_float (BigZ.to_float r)) else None end
     else None);
@@ -351,6 +354,8 @@ let rec dec_host (s : string) : hostval =
   | 'R' -> HStruct (List.map (fun p -> match split_top p '=' with [k; v] -> (str_of_string (unhex k), dec_host v) | _ -> failwith "bad struct") (split_top (inner s 2) ','))
   | 'P' -> HPtr (dec_host (inner s 2))
   | 'Q' -> HNilPtr
+  | 'm' | 'o' -> HMapIface []        (* a nil map reads as an empty one *)
+  | 'l' | 'y' -> HSlice []           (* a nil slice reads as an empty one *)
   | 'X' -> HIface (dec_host (inner s 2))
   | 'Z' -> HOther
   | _ -> failwith ("bad host value " ^ s)
